@@ -43,7 +43,8 @@ HISTORY_ROOTS = {
 
 # rules of another property that decide a clause this property depends on (the function lives in the other property's files, the behaviour is part of both)
 BORROWED = {
-    'C12': [('c13', ('FLAT-ONCE',), 'axis 0 / 1: every slice goes through compute_features_2d(axis=None), whose flattening and epoching C13 decides')],
+    'C06': [('c13', ('RELABEL-ONLY-LIST',), 'with a per-epoch option list the epoch tables carry the labels of detect_bursts_cycles applied per epoch: its result must be what is stored')],
+    'C12': [('c13', ('FLAT-ONCE', 'PARTITION'), 'axis 0 / 1: every slice goes through compute_features_2d(axis=None), whose flattening and epoching (epoch_df) C13 decides')],
     'C13': [('c08', ('SCHEMA',), 'per-epoch re-labelling runs the detectors, whose run filter C08 decides'),
             ('c06', ('LABEL-DEF',), 'per-epoch re-labelling with the cycles method is detect_bursts_cycles'),
             ('c07', ('LABEL-DEF',), 'per-epoch re-labelling with the amp method is detect_bursts_amp')],
